@@ -76,16 +76,17 @@ end
 consumes**, for every well-formed program of the grammar: `tags` carries, along the evaluation,
 the quantizer object that last quantized each tensor (input quantizer, conv / depthwise / linear /
 add output quantizer; element-wise nodes pass it on); `inQ` is the walk of
-`register_in_mps_quantizers`. -/
+`register_in_mps_quantizers`.  (First call sites; for the further call sites of a module invoked more
+than once see `reused_layer_further_site_in_quantizer`.) -/
 theorem in_precision_is_producer_out (p : Prog) (hwf : WF p) (i : Nat) (hi : i < p.length)
-    (hl : (p.nd i).kind.isLayer = true) :
+    (hl : (p.nd i).kind.isLayer = true) (hnd : (p.nd i).dup = false) :
     inQ p (.layer i) = (tags p).getD (p.nd i).a .dflt := by
   have hne : (p.nd i).kind ≠ .input := by
     intro h; rw [h] at hl; simp [Kind.isLayer] at hl
   have ha := (hwf i hi hne).1
   have := tag_eq_walk p hwf (p.nd i).a (by omega) (i + 1) (by omega)
   rw [this]
-  simp only [inQ, producer]
+  simp only [inQ, producer, firstSite, hnd, Bool.false_eq_true, if_false]
   cases walkProd p (i + 1) (p.nd i).a <;> rfl
 
 /-- … the same for the quantizer inserted after an add (first operand). -/
@@ -129,9 +130,10 @@ theorem add_operands_same_quantizer (p : Prog) (hwf : WF p) (i : Nat) (hi : i < 
 /-- A **depthwise** convolution fed by a searchable layer quantizes its output with the object
 that quantized its input (it belongs to its producer's sharing component). -/
 theorem depthwise_in_eq_out (p : Prog) (hwf : WF p) (i : Nat) (hi : i < p.length)
-    (hdw : (p.nd i).kind = .dw) (ha : ∀ x, (tags p).getD (p.nd i).a .dflt ≠ .inp x) :
+    (hdw : (p.nd i).kind = .dw) (hnd : (p.nd i).dup = false)
+    (ha : ∀ x, (tags p).getD (p.nd i).a .dflt ≠ .inp x) :
     inQ p (.layer i) = outQ p (.layer i) := by
-  rw [in_precision_is_producer_out p hwf i hi (by rw [hdw]; rfl)]
+  rw [in_precision_is_producer_out p hwf i hi (by rw [hdw]; rfl) hnd]
   have hne : (p.nd i).kind ≠ .input := by rw [hdw]; decide
   have hai := (hwf i hi hne).1
   have hla := (labels_sound p hwf i hi).1 (by rw [hdw]; rfl)
@@ -156,6 +158,45 @@ theorem reused_layer_sites_share_in_quantizer (p : Prog) (hwf : WF p) (i : Nat) 
     · rw [h, h', htie]
     · exact absurd h' (hb x)
   · exact absurd h (ha x)
+
+/-- **Further call sites**: a module invoked more than once keeps the in-quantizer of its first call
+site (580a9ad); it is the out-quantizer of the tensor consumed at a further call site too, provided
+neither of the two tensors comes straight from a network-input quantizer (which lies outside the
+sharing graph — see the witness `reuseOnInput` below). -/
+theorem reused_layer_further_site_in_quantizer (p : Prog) (hwf : WF p) (i : Nat) (hi : i < p.length)
+    (hd : (p.nd i).dup = true) (hl : (p.nd i).kind.isLayer = true) (ht : (p.nd i).tf < i)
+    (hfl : (p.nd (p.nd i).tf).kind.isLayer = true) (hfd : (p.nd (p.nd i).tf).dup = false)
+    (hta : (p.nd i).ta = (p.nd (p.nd i).tf).a)
+    (ha : ∀ x, (tags p).getD (p.nd i).a .dflt ≠ .inp x)
+    (hb : ∀ x, (tags p).getD (p.nd i).ta .dflt ≠ .inp x) :
+    inQ p (.layer i) = (tags p).getD (p.nd i).a .dflt := by
+  have h1 : inQ p (.layer i) = inQ p (.layer (p.nd i).tf) := by
+    simp [inQ, producer, firstSite, hd, hfd]
+  have hne : (p.nd (p.nd i).tf).kind ≠ .input := by
+    intro h; rw [h] at hfl; simp [Kind.isLayer] at hfl
+  have hatf := (hwf (p.nd i).tf (by omega) hne).1
+  rw [h1, in_precision_is_producer_out p hwf _ (by omega) hfl hfd, ← hta,
+    reused_layer_sites_share_in_quantizer p hwf i hi hd hl (by rw [hta]; omega) ha hb]
+
+/-- `s` applied to the network input and then to its own (activated) output -/
+def reuseOnInput : Prog :=
+  [{ kind := .input, cin := 3, cout := 3 },
+   { kind := .conv, a := 0, cin := 3, cout := 3, k0 := 3, k1 := 3, o0 := 8, o1 := 8 },
+   { kind := .pass, a := 1 },
+   { kind := .conv, a := 2, cin := 3, cout := 3, k0 := 3, k1 := 3, o0 := 8, o1 := 8,
+     dup := true, ta := 0, tf := 1 },
+   { kind := .pass, a := 3 },
+   { kind := .flatten, a := 4, mult := 64 },
+   { kind := .linear, a := 5, lt := .linear, cin := 192, cout := 2 },
+   { kind := .output, a := 6 }]
+
+/-- **Negation on the witness** (open finding `C02:in-precision:reused-layer:call-site-on-network-input`):
+the module's in-quantizer is the network-input quantizer, while at its second call site it consumes
+a tensor quantized by its own output quantizer. -/
+theorem reused_layer_on_input_in_quantizer_mismatch :
+    inQ reuseOnInput (.layer 3) = .inp 0 ∧
+    (tags reuseOnInput).getD (reuseOnInput.nd 3).a .dflt = outQ reuseOnInput (.layer 1) ∧
+    inQ reuseOnInput (.layer 3) ≠ (tags reuseOnInput).getD (reuseOnInput.nd 3).a .dflt := by decide
 
 /-- siamese branches: `sh` is applied to `relu(ca(x))` and to `relu(cb(x))`, the results are summed -/
 def siamese : Prog :=
